@@ -4,7 +4,7 @@ from checks import proc_common as pc
 ID = "C02"
 LEVEL = "proof"
 MODULE = "NrDaemon.Props.C02"
-PREFIX = ('C02',)
+PREFIX = ("C02",)
 RULE = ("engine proc: the real Processor in lock-step (trackProgress) with a scripted collector client in which every request parks "
         "until answered; histories of 1-3 applications: transactions (real flatbuffers through processBinary/AggregateInto), harvest "
         "triggers with every mask (all, default data, single and combined event categories), replies in any order relative to later "
@@ -25,6 +25,14 @@ def plan(ctx):
     n = 40 if tier == "quick" else 2500
     seqs = [("retry%d" % i, gen_proc.retry_history(rng)) for i in range(n)]
     seqs += [("h%d" % i, gen_proc.history(rng, profile=rng.choice(["mixed", "nofatal"]))) for i in range(n // 2)]
+    from checks import gen_containers as gc, gen_metrics as gm
+    for i in range(n):
+        ops = gc.res_seq(rng)
+        if not ops[-1].startswith("res split"):
+            ops.append("res split 0 4 5")
+        ops += ["res new 6 %s" % ops[0].split()[3], "res mergefailed 6 5", "res mergefailed 6 4"]
+        seqs.append(("split%d" % i, ops))
+        seqs.append(("mt%d" % i, gm.mt_seq(rng, with_rules=True)))
     return [("corpus", corpus(ID)), ("gen", seqs)]
 
 
